@@ -33,8 +33,16 @@ CFG = {
         "and lowers a measure; that the Go scheduler eventually runs a runnable goroutine is assumed. sync.Cond, "
         "sync.Mutex and a 1-buffered channel with direct hand-off to a parked receiver are modelled, not verified; the "
         "thread Signal wakes and the receiver a send is handed to are free choices of the model (label parameters), so "
-        "the theorems do not depend on FIFO wake order. AddReqAnyway/AddAnyway (sleep-and-retry loops around Add), "
-        "WaitClose/WaitClear/TryClear (stop/clear channels) and SyncQueue.Len as an operation are outside the model "
+        "the theorems do not depend on FIFO wake order. AddReqAnyway / AddAnyway / AddCtrlAnyway are sleep-and-retry "
+        "loops around the ordinary add: every attempt is an LAdd / LAddCtrl label, an attempt answered full or closed is "
+        "a no-op (c13_full_add_is_noop), the accepted one wakes everybody (c13_accepted_add_wakes_all), so a trace "
+        "lists the last attempt only; they are issued in every class on unbounded lists and, on FULL bounded lists and "
+        "on closed queues, in the class anyway-full (which supplies the consumer that makes room, or the Close). "
+        "MQ.TryClear is label LTryClear (true exactly on a closed drained queue, state untouched: c13_tryclear_spec). "
+        "WaitClose (mux.Q, mq.MQ): one goroutine is blocked in it for the whole schedule and must have returned at a "
+        "quiescent point exactly when the queue is closed (observation o_wc; otherwise it is positively seen parked in "
+        "WaitClose's select). NOT covered: MQ.WaitClear and MQ.IsCleared (the cleared flag is not part of the model "
+        "state) and Size(); SyncQueue.Len as an operation is outside the model "
         "(Len and IsClosed are read only as observations at quiescent points). Items are abstract identities (Z) in the "
         "model: the unchanged pipe queues hand a nil / typed-nil / zero-valued item out like any other (Pop returns "
         "(nil, nil) for a nil item), which the harness checks by mapping these values to reserved ids; SyncQueue.Pop "
@@ -50,7 +58,10 @@ CFG = {
         "plus newly launched consumers) on a fresh queue of one of the six types, run on the real implementation and "
         "replayed in Coq; generator classes per type: random walk, park-close, park-add, drain-after-close, bound, "
         "close-race, steal, tryclose, add-close-burst (k>=2 parked, an add and Close back to back from one goroutine), "
-        "park-add-nil (k parked, k items some of which are boundary values); in every class about one item in eight is "
+        "park-add-nil (k parked, k items some of which are boundary values), anyway-full (a bounded list filled up, then "
+        "the retrying add - first seen asleep between two attempts - next to a consumer / after Close / next to Close; "
+        "MQ: TryClear at the end); every add on an unbounded list goes through its ...Anyway variant with probability "
+        "1/4 (every other add in the stress class), MQ schedules contain TryClear; in every class about one item in eight is "
         "a boundary value of interface{} - the nil interface, a typed nil pointer, \"\", int(0), false, struct{}{} - "
         "each used at most once per schedule and identified by a reserved negative id (the nil interface is not used "
         "on SyncQueue, whose Pop returns nil for `closed`) "
